@@ -515,6 +515,21 @@ def adsr_slowest(rng, sid):
     return Script(sid, ops, {"module": "adsr", "family": "slowest", "fs": fs})
 
 
+def adsr_special_params(rng, sid):
+    """one parameter set to a special float (NaN, infinities, -0.0, subnormal ...), then a whole envelope"""
+    fs = rng.choice([1000.0, 48000.0, 100.0])
+    t = max(0.001, 4.0 / fs)
+    ops = ["adsr.new " + hx(fs), "att " + hx(t), "dec " + hx(t), "rel " + hx(t), "sus " + hx(0.5)]
+    which = rng.choice(["att", "dec", "rel", "sus", "sus"])
+    x = rng.choice([float("nan"), float("nan"), float("inf"), float("-inf"), -0.0, 1e-45, -1.0, 3.0e38])
+    ops.append("%s %s" % (which, fhex(x)))
+    ops.append("gon")
+    ops += ["tick"] * (3 * int(t * fs) + 12)
+    ops.append("goff")
+    ops += ["tick"] * (2 * int(t * fs) + 12)
+    return Script(sid, ops, {"module": "adsr", "family": "special-params", "fs": fs})
+
+
 def adsr_scripts(rng, n_hist, n_phase, n_ext):
     res = [adsr_script(rng, "adsr-h%d" % i, rng.randrange(100, 700)) for i in range(n_hist)]
     configs = [(1000.0, 0.1), (512.0, 2.0 ** -9), (999.0, 0.001), (100.0, 0.001), (1000.0, 0.001), (48000.0, 0.001),
@@ -532,6 +547,8 @@ def adsr_scripts(rng, n_hist, n_phase, n_ext):
         res.append(adsr_sustain_change(rng, "adsr-sc%d" % i))
     for i in range(2):
         res.append(adsr_slowest(rng, "adsr-slowest%d" % i))
+    for i in range(max(n_ext, 6)):
+        res.append(adsr_special_params(rng, "adsr-sp%d" % i))
     for i in range(n_ext):
         res.append(adsr_script(rng, "adsr-x%d" % i, rng.randrange(50, 300), legal=False))
     return res
